@@ -40,11 +40,11 @@ def code_frame(exc):
 def call(what, fn, *a, **k):
     """Run code under test on an input inside the property's domain: any exception it raises
     is a violation of the named clause (bucketed by exception type and innermost gcmpy frame).
-    RNG budget exhaustion propagates (inconclusive)."""
-    from vlib.rng import Budget
+    RNG budget exhaustion propagates (inconclusive), and so does the enumeration-mode signal Uncontrolled."""
+    from vlib.rng import Budget, Uncontrolled
     try:
         return fn(*a, **k)
-    except (Budget, Violation):
+    except (Budget, Violation, Uncontrolled):  # Uncontrolled: the harness's own "enumeration not applicable" signal
         raise
     except RecursionError as e:
         raise Violation(f"{what}:RecursionError", "recursion limit") from e
